@@ -62,7 +62,12 @@ def _case(draw):
     ncalls = draw(st.sampled_from([1, 1, 2, 3]))
     cuts = sorted(draw(st.lists(st.sampled_from([0.25, 0.5, 0.6, 0.75]), min_size=ncalls - 1, max_size=ncalls - 1, unique=True)))
     return dict(part="dense", method=method, dtype="float64", prob=prob, y0=y0, t0=t0, tf=tf, dt=L * frac * draw(st.sampled_from([1.0, -1.0])),
-                rtol=tol, atol=tol, dense=True, cuts=cuts, qfrac=draw(st.lists(st.floats(0.05, 0.95), min_size=3, max_size=3)))
+                rtol=tol, atol=tol, dense=True, cuts=cuts, qfrac=draw(st.lists(st.floats(0.05, 0.95), min_size=3, max_size=3)),
+                # a time event (terminal: the step is rolled back and re-integrated up to it; or not) watched by the first call that
+                # reaches it, and the order in which the recorded times are queried afterwards (the very first query after the run
+                # may be anywhere)
+                event_at=draw(st.sampled_from([None, None, 0.37, 0.61, 0.83])), event_terminal=draw(st.booleans()),
+                qorder=draw(st.sampled_from(["forward", "backward", "last_first", "last_interior_first"])))
 
 
 RICH_FACTOR = 1000.0   # Richardson pieces are the un-extrapolated sub-steps: observed up to 110 x tolerance (worst_observed in the evidence)
@@ -188,7 +193,10 @@ def check(case):
         return [V("construction_raised", "{!r}".format(e), fam + exc_sig(e), **attrs)], dict(nontrivial=False, labels=labels)
     targets = [t0 + c * (tf - t0) for c in case["cuts"]] + [None]
     last_scalar = None      # (time, value) of the last scalar query made before the next call
-    for tg in targets:
+    event_used = False
+    pending = list(targets)
+    while pending:
+        tg = pending.pop(0)
         if last_scalar is not None and a.sol is not None:
             # the first query after a continuation repeats, bit for bit, the last query before it: the step that contains
             # that time has not changed (a lookup memo that survives the insertion of new pieces would answer from another)
@@ -203,7 +211,7 @@ def check(case):
             mids = 0.5 * (tq[:-1] + tq[1:])
             try:
                 early = np.asarray(a.sol(mids), dtype=np.float64)
-                for i in (0, len(mids) - 1, (len(mids) - 1) // 2):
+                for i in ((0, len(mids) - 1, (len(mids) - 1) // 2) if case.get("qorder", "forward") == "forward" else (len(mids) - 1, (len(mids) - 1) // 2, 0)):
                     sc = np.asarray(a.sol(np.float64(mids[i])), dtype=np.float64)
                     if not np.array_equal(early[i], sc):
                         return [V("array_vs_scalar", "between two calls sol(array)[{}] differs from sol(scalar) at t={!r}".format(i, float(mids[i])), fam, direction="backward" if backward else "forward", **attrs)], dict(nontrivial=False, labels=labels)
@@ -212,7 +220,20 @@ def check(case):
                 if exc_origin(e)[0] == "harness":
                     raise
                 return [V("query_raised", "sol(array) between two calls raised {!r}".format(e), fam + exc_sig(e), **attrs)], dict(nontrivial=False, labels=labels)
-        err = traj.run_integrate(a, tg, step_limit=len(a) + (300 if fam in ("implicit_fixed", "implicit_embedded", "richardson") else 2500))
+        evs = None
+        if case.get("event_at") is not None and not event_used:
+            te_ = t0 + case["event_at"] * (tf - t0)
+            cur_, goal_ = float(a.t[-1]), float(tf if tg is None else tg)
+            if (cur_ - te_) * (goal_ - te_) < 0:
+                def time_event(t, y, _te=te_, **kw):
+                    return t - _te
+                time_event.is_terminal = bool(case.get("event_terminal"))
+                evs = [time_event]
+                event_used = True
+                labels.append("terminal_event_in_the_run" if case.get("event_terminal") else "event_in_the_run")
+        err = traj.run_integrate(a, tg, step_limit=len(a) + (300 if fam in ("implicit_fixed", "implicit_embedded", "richardson") else 2500), events=evs)
+        if err is None and evs is not None and case.get("event_terminal"):
+            pending.insert(0, tg)       # (the call stopped by the terminal event is followed by one that goes on to the same target)
         if isinstance(err, traj.StepCap):
             return [], dict(nontrivial=False, labels=labels + ["capped"])
         if err is not None:
@@ -252,7 +273,16 @@ def check(case):
 
     # ---- oracle 1: grid points
     try:
-        for k in range(N + 1):
+        qorder = case.get("qorder", "forward")
+        order = list(range(N + 1))
+        if qorder == "backward":
+            order = order[::-1]
+        elif qorder == "last_first":
+            order = [N] + order[:-1]
+        elif qorder == "last_interior_first" and N >= 1:
+            query(t[N - 1] + 0.75 * (t[N] - t[N - 1]))      # (judged below with every other interior point; here it is the first query)
+        labels.append("first_queries:" + qorder)
+        for k in order:
             got = query(t[k])
             if got.shape != shape:
                 viols.append(V("query_shape", "sol(t) has shape {} for a state of shape {}".format(got.shape, shape), fam, **attrs))
